@@ -10,11 +10,12 @@ rm -rf $S; git clone -q /repo $S || exit 2
 cd $S
 OUT=/verif/seeded/$NAME; mkdir -p $OUT
 cp $SW/patch.diff $OUT/patch.diff
-DEMO=$(ls $SW/*_test.go | head -1); cp $DEMO $OUT/
+DEMO=$(ls $SW/*_test.go | head -1); cp $DEMO $OUT/; [ -f $SW/README.md ] && cp $SW/README.md $OUT/README.agent.md
 PKGDIR=$(grep -m1 '^+++ b/' $SW/patch.diff | sed 's|+++ b/||' | xargs dirname)
 # the demo test lives next to the package's tests (the README says where); find the package by its `package` clause + path hint
 DEMODIR=$(grep -l "zz_seed_demo_test.go" -r $SW/README.md >/dev/null 2>&1; grep -o '[a-zA-Z0-9_/.-]*zz_seed_demo_test.go' $SW/README.md | grep -v '^/tmp/seedwork' | head -1 | sed 's|^/tmp/seed[234]\?-[A-Z0-9]*/||' | xargs dirname 2>/dev/null)
 [ -z "$DEMODIR" ] || [ "$DEMODIR" = "." ] && DEMODIR=$PKGDIR
+[ -f $SW/DEMODIR ] && DEMODIR=$(tr -d " \n" < $SW/DEMODIR)
 [ -n "${SEED_DEMODIR:-}" ] && DEMODIR=$SEED_DEMODIR   # override when the README heuristics pick the wrong package
 echo "package dir: $PKGDIR ; demo dir: $DEMODIR"
 cp $DEMO $DEMODIR/zz_seed_demo_test.go
